@@ -230,7 +230,10 @@ def build_world(case, audio_root: Path):
         elif k == "tag":
             # distinct tags that share a key or a value with another tag (the registry keys tags by (label, value))
             n = int("".join(ch for ch in i if ch.isdigit()) or 0)
-            tkey, tval = "key_" + "abbca"[n % 5] + str(n // 5), ["v one", "v one", "välue 2", "v one", " v one "][n % 5]
+            # ... and two tags whose "label:value" spellings coincide although label and value differ (t1 / t3: the colon sits
+            # at another place), one tag that differs from another only by surrounding blanks (t0 / t4)
+            tkey = "key_" + "abbba"[n % 5] + str(n // 5) + (":x" if n % 5 == 3 else "")
+            tval = ["v one", "x:v one", "välue 2", "v one", " v one "][n % 5]
             # every tag's term has the SAME name and its own label: the document format identifies a tag by (label, value)
             o = data.Tag(term=data.Term(name="verif:shared_name", label=tkey, definition="shared name, own label"), value=tval)
             assert (tkey, tval) not in rev, "tag catalogue must be injective"
